@@ -1,0 +1,59 @@
+//go:build verif
+// +build verif
+
+package media
+
+import (
+	"sync/atomic"
+	"time"
+)
+
+// VerifQueueLen returns the receive-queue length of a consumer (-1 when it is not registered).
+func VerifQueueLen(s *Stream, cid CID) int {
+	cs := &s.consumptions
+	if cid.Type() == FLVPacket {
+		cs = &s.flvConsumptions
+	}
+	c, ok := cs.Load(cid)
+	if !ok {
+		return -1
+	}
+	return c.(*consumption).recvQueue.Len()
+}
+
+// VerifDiscarding reports the discarding flag of a consumer.
+func VerifDiscarding(s *Stream, cid CID) bool {
+	cs := &s.consumptions
+	if cid.Type() == FLVPacket {
+		cs = &s.flvConsumptions
+	}
+	c, ok := cs.Load(cid)
+	if !ok {
+		return false
+	}
+	return c.(*consumption).discarding
+}
+
+// VerifCounts returns the raw RTP and FLV consumer counters.
+func VerifCounts(s *Stream) (int, int) {
+	return int(atomic.LoadInt32(&s.consumptions.count)), int(atomic.LoadInt32(&s.flvConsumptions.count))
+}
+
+// VerifStatus returns the stream status word.
+func VerifStatus(s *Stream) int32 { return atomic.LoadInt32(&s.status) }
+
+// VerifResetRegistry empties the global stream registry without closing anything.
+func VerifResetRegistry() {
+	streams.Range(func(key, value interface{}) bool {
+		streams.Delete(key)
+		return true
+	})
+}
+
+// VerifIdleDecision runs one idle-close decision for s with period d, as the
+// scheduled task would, and reports whether it closed the stream.
+func VerifIdleDecision(s *Stream, d time.Duration, closedStatus int32) bool {
+	r := &runZeroConsumersClose{s: s, d: d, closedStats: closedStatus}
+	r.run()
+	return r.closed
+}
